@@ -1,6 +1,7 @@
 package main
 
 import (
+	"io"
 	"math/big"
 	"math/rand"
 	"strings"
@@ -33,7 +34,7 @@ func init() {
 }
 
 func runC13(r *Run, rng *rand.Rand, thorough bool) {
-	r.Rule = "the whole exchange AliceInit → BobMid(WC) → AliceEnd(WC) is run by the library for (a,b) ∈ {0,1,q-1,random}² over ordered pairs of vendored parameter sets; Alice's last step (proof gate + decryption + reduction) is an exact op against the Lean model; non-trivial = distinct op line; direct assertions: alpha+beta ≡ ab (mod q), wrong public point rejected, altered cA / cB rejected (+1, plaintext+1, additive inverse mod N², inverse, square, re-randomisation)"
+	r.Rule = "the whole exchange AliceInit → BobMid(WC) → AliceEnd(WC) is run by the library for (a,b) ∈ {0,1,q-1,random}² over ordered pairs of vendored parameter sets; Alice's last step (proof gate + decryption + reduction) is an exact op against the Lean model; non-trivial = distinct op line; direct assertions: alpha+beta ≡ ab (mod q), wrong public point rejected, Bob's mask scripted to the ends of its range and to multiples of q; altered cA / cB rejected (+1, plaintext+1, additive inverse mod N², inverse, square, re-randomisation)"
 	c := curveByTag("s256")
 	q := c.Params().N
 	fx := loadFixtures()
@@ -62,14 +63,29 @@ func runC13(r *Run, rng *rand.Rand, thorough bool) {
 					if wc && b.Sign() == 0 {
 						continue // B = b·G is the identity: not expressible
 					}
-					mtaOnce(r, rng, A, B, a, b, wc, q)
+					mtaOnce(r, rng, A, B, a, b, wc, q, nil)
 				}
+			}
+		}
+	}
+	// directed: Bob's mask beta' at the ends of its range [0, q^5) and at multiples of q, with small and large secrets
+	{
+		A, B := &fx[pairs[0].i], &fx[pairs[0].j]
+		q5 := new(big.Int).Exp(q, bi(5), nil)
+		masks := []*big.Int{bi(0), bi(1), new(big.Int).Set(q), new(big.Int).Mul(q, bi(7)), new(big.Int).Sub(q5, bi(1)), new(big.Int).Sub(q5, bi(6)), new(big.Int).Sub(q5, q)}
+		secrets := [][2]*big.Int{{bi(1), bi(1)}, {new(big.Int).Sub(q, bi(1)), new(big.Int).Sub(q, bi(1))}, {bi(2), bi(3)}, {bi(0), bi(5)}}
+		for mi, m := range masks {
+			for si, ab := range secrets {
+				if !thorough && (mi+si)%2 == 1 {
+					continue
+				}
+				mtaOnce(r, rng, A, B, ab[0], ab[1], (mi+si)%4 < 2, q, m)
 			}
 		}
 	}
 }
 
-func mtaOnce(r *Run, rng *rand.Rand, A, B *keygen.LocalPartySaveData, a, b *big.Int, wc bool, q *big.Int) {
+func mtaOnce(r *Run, rng *rand.Rand, A, B *keygen.LocalPartySaveData, a, b *big.Int, wc bool, q *big.Int, betaPrm *big.Int) {
 	c := curveByTag("s256")
 	sess := randBytes(rng, 1+rng.Intn(40))
 	pk := &A.PaillierSK.PublicKey
@@ -78,6 +94,14 @@ func mtaOnce(r *Run, rng *rand.Rand, A, B *keygen.LocalPartySaveData, a, b *big.
 		r.Assert(false, "mta.AliceInit/honest", "alice-init-succeeds", func() string { return err.Error() })
 		return
 	}
+	// Bob's first draw is the mask beta' < q^5; when given it is scripted, the rest of his randomness is ordinary
+	var bobRd io.Reader = rdr(rng)
+	if betaPrm != nil {
+		q5 := new(big.Int).Exp(q, bi(5), nil)
+		cr := &coinReader{rng: rand.New(rand.NewSource(rng.Int63()))}
+		cr.push(betaPrm, q5.BitLen())
+		bobRd = cr
+	}
 	var beta, cB *big.Int
 	var pf *mta.ProofBob
 	Xs, Us := "nil", "nil"
@@ -85,17 +109,20 @@ func mtaOnce(r *Run, rng *rand.Rand, A, B *keygen.LocalPartySaveData, a, b *big.
 	if wc {
 		Bpt = crypto.ScalarBaseMult(c, b)
 		var pfw *mta.ProofBobWC
-		beta, cB, _, pfw, err = mta.BobMidWC(sess, c, pk, rpf, b, cA, A.NTildei, A.H1i, A.H2i, B.NTildei, B.H1i, B.H2i, Bpt, rdr(rng))
+		beta, cB, _, pfw, err = mta.BobMidWC(sess, c, pk, rpf, b, cA, A.NTildei, A.H1i, A.H2i, B.NTildei, B.H1i, B.H2i, Bpt, bobRd)
 		if err == nil {
 			pf = pfw.ProofBob
 			Xs, Us = ePoint(Bpt), ePoint(pfw.U)
 		}
 	} else {
-		beta, cB, _, pf, err = mta.BobMid(sess, c, pk, rpf, b, cA, A.NTildei, A.H1i, A.H2i, B.NTildei, B.H1i, B.H2i, rdr(rng))
+		beta, cB, _, pf, err = mta.BobMid(sess, c, pk, rpf, b, cA, A.NTildei, A.H1i, A.H2i, B.NTildei, B.H1i, B.H2i, bobRd)
 	}
 	name := "mta"
 	if wc {
 		name = "mta-wc"
+	}
+	if betaPrm != nil {
+		name += "/scripted-mask"
 	}
 	if err != nil {
 		r.Assert(false, name+".BobMid/honest", "bob-mid-succeeds", func() string { return err.Error() })
